@@ -77,7 +77,8 @@ Definition wire_data_piece (binary : bool) (newline piece : list byte) : list by
   if binary then
     wire_fmt Consts.data_v2_binary_format [wire_dec (N.of_nat (length piece)); newline] ++ piece
   else
-    Consts.data_v2_base64_prefix ++ piece ++ newline.
+    Consts.data_v2_base64_prefix ++ piece ++
+    (match Consts.data_v2_piece_terminator with None => newline | Some literal => literal end).
 
 (* ---- sendDataWriter: the encoded stream is cut into frames.  [room] is the space left in
    the current buffer; a frame is delivered the moment it is full, then the NEXT buffer
